@@ -233,7 +233,7 @@ def run_check(prop, modname, tier, seed=0, only=None, nproc=None, verbose=False)
                 twin_ok[hname] = False
             if not twin_ok[hname]:
                 vac.append(f"{hname}: false-twin not violated (assertions unreachable)")
-    must = meta.get("must_cover", [])
+    must = meta.get("must_cover", []) if not only else []
     cov_missing = []
     for relfile, snippet in must:
         path = os.path.join(REPO, relfile)
